@@ -268,6 +268,11 @@ func (lb *LoadBalancer) setupCircuitBreaker(cfg *config.Config) {
 	// Set defaults
 	if cbSettings.MaxRequests == 0 {
 		cbSettings.MaxRequests = 1
+		// the default must leave room for success_threshold successful trials,
+		// otherwise the breaker can never close again
+		if cbSettings.SuccessThreshold > cbSettings.MaxRequests {
+			cbSettings.MaxRequests = cbSettings.SuccessThreshold
+		}
 	}
 	if cbSettings.Interval == 0 {
 		cbSettings.Interval = time.Minute
